@@ -67,6 +67,8 @@ pub fn run(kind: &str, args: &[i64]) -> String {
                 if let Ok(b) = UtcDateTime::from_timespec(u.unix_time(), u.nanoseconds()) {
                     o.push_str(" rt=");
                     canon::utc(&mut o, &b);
+                    // the same instant written two ways (second 60 / second 0 of the next minute) under the comparison operators
+                    canon::rel(&mut o, &u, &b);
                 }
                 let _ = u.project(TimeZoneRef::utc());
             }
@@ -80,6 +82,17 @@ pub fn run(kind: &str, args: &[i64]) -> String {
             match DateTime::new(a(args, 0) as i32, a(args, 1) as u8, a(args, 2) as u8, a(args, 3) as u8, a(args, 4) as u8, a(args, 5) as u8, a(args, 6) as u32, l) {
                 Ok(d) => {
                     canon::dt(&mut o, &d);
+                    // the same instant through its timestamp (second 60 becomes second 0 of the next minute) and one
+                    // nanosecond later, under the comparison operators
+                    if let Ok(b) = DateTime::from_timespec_and_local(d.unix_time(), d.nanoseconds(), *d.local_time_type()) {
+                        o.push_str(" rt=");
+                        canon::dt(&mut o, &b);
+                        canon::rel(&mut o, &d, &b);
+                        canon::rel(&mut o, &b, &d);
+                    }
+                    if let Ok(b) = DateTime::from_total_nanoseconds_and_local(d.total_nanoseconds().saturating_add(1), *d.local_time_type()) {
+                        canon::rel(&mut o, &d, &b);
+                    }
                     let _ = d.project(TimeZoneRef::utc());
                 }
                 Err(e) => canon::anyerr(&mut o, e),
